@@ -3,7 +3,7 @@
    mechanism of /repo/writer.go as an atomic-step transition system); a run is
    [run (step cfg) init ls = Some s] for an arbitrary label sequence ls (every schedule, every
    timer firing, every broker reaction). *)
-From Coq Require Import List NArith Bool Arith.
+From Coq Require Import List NArith ZArith Bool Arith.
 From KV Require Import Lib.LTS Model.Writer Proofs.WriterStmts Proofs.WriterC08 Proofs.WriterHolds Proofs.WriterC01a Proofs.WriterHolds2.
 Import ListNotations.
 
@@ -110,6 +110,23 @@ Theorem C08_rejected_sends_nothing_holds_on_runs :
     rejected_sends_nothing_holds (s_calls s) (s_journal s) = true.
 Proof. exact rejected_sends_nothing_holds_runs. Qed.
 Print Assumptions C08_rejected_sends_nothing_holds_on_runs.
+
+(* The limits are the EFFECTIVE ones: an option field that is not positive stands for its
+   documented default (accessors batchSize()/batchBytes()/maxAttempts(): 100 / 1048576 / 10),
+   never for "unlimited"; the configuration built from any option values satisfies cfg_ok, so
+   C08_limits applies to it.  (The accessor mapping is compared by op cfgd; every end-to-end
+   scenario's cfg is read through the accessors of the very Writer it runs.) *)
+Theorem C08_defaulted_config_ok :
+  forall o asy wt retr, cfg_ok (cfg_of_options o asy wt retr).
+Proof. exact cfg_of_options_ok. Qed.
+Print Assumptions C08_defaulted_config_ok.
+
+Example C08_zero_means_default :
+  let c := cfg_of_options (mkOpt 0 0 0 0 0 0 0 0)%Z false None (fun _ => false) in
+  batchSize c = 100 /\ batchBytes c = 1048576%N /\ maxAttempts c = 10 /\
+  validate c None [mkMsg 1 (Some 0%N) 1048577 0] = Some (ETooLarge 0) /\
+  validate c None [mkMsg 1 (Some 0%N) 1048576 0] = None.
+Proof. vm_compute. repeat split; reflexivity. Qed.
 
 (* ---- non-vacuity: BatchSize 2, BatchBytes 100; a call of three 40-byte messages: the first
    two fill a batch exactly by count, the third is flushed by its timer; a 50+50 pair hits
